@@ -82,7 +82,8 @@ def work(ctx, tier):
         for e in common.pick_entries(rng, rig.ENTRIES, 2):
             _one(ctx, sc, e, stats, rng)
         ctx.inc("random_scenarios")
-    # a slice with attempt hooks reading elapsed time and timelines (more clock reads)
+    common.crossing_slice(ctx, tier, common.rng_for(ctx, "crossing"), lambda sc, e: _one(ctx, sc, e, stats, rng))
+    common.reconfig_slice(ctx, tier, common.rng_for(ctx, "reconfig"), lambda sc, e: _one(ctx, sc, e, stats, rng))
     common.flush_stats(ctx, stats)
 
 
@@ -97,6 +98,9 @@ def conclude(ctx):
         "monotonic_clock_reads": (ctx.cnt["monotonic_clock_reads"], 1000),
         "wall_differentials": (ctx.cnt["wall_differentials"], 1000),
     }
+    common.crossing_floors(ctx, floors)
+    floors["reconfigured_scenarios"] = (ctx.cnt["reconfigured_scenarios"], 80)
+
     return dict(
         rule=(
             "deadline-boundary scenarios (attempt ending exactly at / one grid step or 0.3/0.7/3 us / 1 ms around the deadline; strategy asking exactly/more than the remainder; "
